@@ -9,6 +9,7 @@ import (
 	"github.com/agglayer/aggkit/lastgersync"
 	"github.com/agglayer/aggkit/sync"
 	"github.com/ethereum/go-ethereum/common"
+	"github.com/ethereum/go-ethereum/crypto"
 	"pgregory.net/rapid"
 
 	"verifharness/ref"
@@ -478,6 +479,13 @@ func genBlock(t *rapid.T, k storeKind, w *world, num uint64, o genOpts) blkSpec 
 					er = common.Hash{} // zero: ignored
 				case 1:
 					er = currentRollupVal(w, b.Evs, id) // unchanged: ignored
+				case 2:
+					// constants a rollup legitimately reports: the root of its still empty exit tree (a chain settling before its
+					// first bridge exit), and hashes that look special without being the zero hash
+					er = rapid.SampledFrom(specialExitRoots).Draw(t, "specialExitRoot")
+					if rollupEverHad(w, b.Evs, id, er) {
+						er = genHash.Draw(t, "exitRoot")
+					}
 				default:
 					er = genHash.Draw(t, "exitRoot") // fresh (never returns to an earlier value)
 				}
@@ -559,6 +567,14 @@ func currentRollupVal(w *world, evs []evSpec, id uint32) common.Hash {
 }
 
 // rollupEverHad: did rollup id ever hold exit root er on the surviving chain (or through the events drawn for this block)?
+var specialExitRoots = []common.Hash{
+	(&ref.Frontier{}).Root(), // empty depth-32 tree
+	crypto.Keccak256Hash(nil),
+	common.HexToHash("0x01"),
+	common.HexToHash("0xffffffffffffffffffffffffffffffffffffffffffffffffffffffffffffffff"),
+	common.HexToHash("0x0100000000000000000000000000000000000000000000000000000000000000"),
+}
+
 func rollupEverHad(w *world, evs []evSpec, id uint32, er common.Hash) bool {
 	for _, v := range w.rollupHist {
 		if v.Leaves[id] == er {
